@@ -1461,6 +1461,23 @@ class Workflow(Trellis):
             return trees[0]
         return None
 
+    def _invalidate_detached_tree_creators(self, creator: Node, path: str) -> None:
+        """Make the steps run again that registered a now detached static tree over `path`.
+
+        A detached static tree does not own anything, so a declaration inside it is accepted.
+        The tree comes back, however, when the step that registered it is recycled and skipped,
+        and nothing would compare it with what was declared in the meantime.
+        Without a stored hash, that step runs again when it is recycled (see `Step.after_recycle`),
+        and registering the tree then reports the conflict, as it does in a build from scratch.
+        """
+        sql = (
+            "SELECT cnode.i, cnode.label FROM node JOIN node AS cnode ON cnode.i = node.creator "
+            "WHERE node.kind = 'st' AND node.detached AND cnode.kind = 'step' AND cnode.i != ? "
+            "AND node.label = substr(?, 1, length(node.label))"
+        )
+        for i, label in list(self.db.execute(sql, (creator.i, Path(path) / ""))):
+            Step(self, i, label).after_lost_product()
+
     def _existing_claim(self, path: str) -> Claim | None:
         """Look up the declaration that currently claims `path`.
 
@@ -1741,6 +1758,7 @@ class Workflow(Trellis):
                 if file_state == FileState.UNCONFIRMED:
                     raise GraphError(_static_tree_file_message(static_tree.label, path))
                 raise GraphError(_static_tree_product_message(static_tree.label, path))
+            self._invalidate_detached_tree_creators(creator, path)
         self._raise_if_forbidden_target(path, file_state)
         if path.startswith(STEPUP_DIR + os.sep):
             raise GraphError(f"Cannot declare a file under {STEPUP_DIR}: {path}")
@@ -2427,6 +2445,17 @@ class Workflow(Trellis):
                     raise GraphError(
                         _glob_product_message(pattern, glob_step_label, path, step_label)
                     )
+        # A pattern of a detached step does not restrict anything,
+        # but it comes back when that step is recycled and skipped.
+        # Take away the hash of such a step, as for a lost product,
+        # so that it runs again and registering the pattern reports the conflict.
+        sql = (
+            "SELECT node.i, node.label, nglob.regex FROM nglob "
+            "JOIN node ON node.i = nglob.node WHERE node.detached"
+        )
+        for i, label, regex in list(self.db.execute(sql)):
+            if any(re.compile(regex).fullmatch(path) for path in product_paths):
+                Step(self, i, label).after_lost_product()
 
     def find_glob_violations(self) -> list[GlobViolation]:
         """Find recorded glob matches that no static declaration justifies.
